@@ -38,7 +38,7 @@ inline bool pbt(const std::string &name, long cases, int max_size, P prop) {
     params.maxDiscardRatio = 20;
     rc::detail::TestMetadata md;
     md.id = name; md.description = name;
-    c.last_failing_case.clear();
+    c.last_failing_case.clear(); c.first_fail_cpu = -1;
     const auto result = rc::detail::checkTestable(prop, md, params);
     bool ok = result.template is<rc::detail::SuccessResult>();
     if(!ok) {
